@@ -37,6 +37,10 @@ pub struct ChaosCase {
     /// timer of the layer's and is not delayed at all)
     #[serde(default)]
     pub clock_offset_us: u32,
+    /// request i's response future is first polled this many ms after its call()
+    /// (entry i mod len; empty = at once). Injected latency counts from that first poll.
+    #[serde(default)]
+    pub poll_delays: Vec<u8>,
 }
 
 fn rate() -> BoxedStrategy<u16> {
@@ -73,9 +77,10 @@ fn case_strategy(tier: Tier) -> BoxedStrategy<ChaosCase> {
             any::<bool>(),
             any::<bool>(),
             prop_oneof![4 => Just(0u32), 1 => prop_oneof![Just(1u32), Just(500u32), Just(999u32), 1u32..=999]],
+            prop_oneof![3 => Just(vec![]), 1 => prop::collection::vec(prop_oneof![1 => Just(0u8), 1 => 1u8..=40], 1..=4)],
         ),
     )
-        .prop_map(|(seed, error_rate, latency_rate, min_ms, max_ms, mut requests, (clone_mask, settings_first, max_first, clock_offset_us))| {
+        .prop_map(|(seed, error_rate, latency_rate, min_ms, max_ms, mut requests, (clone_mask, settings_first, max_first, clock_offset_us, poll_delays))| {
             if min_ms.max(max_ms) >= 1000 {
                 // seconds of injected latency: keep the history short
                 requests.truncate(4);
@@ -91,6 +96,7 @@ fn case_strategy(tier: Tier) -> BoxedStrategy<ChaosCase> {
             settings_first,
             max_first,
             clock_offset_us,
+            poll_delays,
             }
         })
         .boxed()
@@ -203,8 +209,16 @@ async fn trace(case: &ChaosCase, which: u8) -> (Vec<Obs>, Vec<String>) {
         at[i] = acc;
     }
     let t0 = sim::now();
-    let horizon = acc + 80 + case.min_ms.max(case.max_ms);
+    let pd = |i: usize| -> u64 {
+        if case.poll_delays.is_empty() {
+            0
+        } else {
+            case.poll_delays[i % case.poll_delays.len()] as u64
+        }
+    };
+    let horizon = acc + 80 + case.min_ms.max(case.max_ms) + 40;
     let mut task = vec![None; n];
+    let mut held: Vec<Option<_>> = (0..n).map(|_| None).collect();
     for t in 0..=horizon {
         if t > 0 {
             sim.begin_instant().await;
@@ -224,18 +238,23 @@ async fn trace(case: &ChaosCase, which: u8) -> (Vec<Obs>, Vec<String>) {
                     let _ = futures::future::poll_fn(|cx| svc.poll_ready(cx)).await;
                     svc.call(req)
                 };
-                task[i] = Some(sim.spawn_call(fut, |r: Result<Resp, SErr>| match r {
-                    Ok(resp) => Outcome::Ok {
-                        serial: resp.serial,
-                        req: resp.req,
-                    },
-                    Err(e) => Outcome::Inner {
-                        code: e.code,
-                        serial: e.serial,
-                    },
-                }));
-                if which == 3 {
-                    sim.settle().await;
+                held[i] = Some(fut);
+            }
+            if at[i] + pd(i) == t {
+                if let Some(fut) = held[i].take() {
+                    task[i] = Some(sim.spawn_call(fut, |r: Result<Resp, SErr>| match r {
+                        Ok(resp) => Outcome::Ok {
+                            serial: resp.serial,
+                            req: resp.req,
+                        },
+                        Err(e) => Outcome::Inner {
+                            code: e.code,
+                            serial: e.serial,
+                        },
+                    }));
+                    if which == 3 {
+                        sim.settle().await;
+                    }
                 }
             }
         }
@@ -310,12 +329,12 @@ async fn trace(case: &ChaosCase, which: u8) -> (Vec<Obs>, Vec<String>) {
         }
         obs.push(Obs {
             injected_error,
-            delay: enters.first().map(|e| e.0 - t0 - at[i]),
+            delay: enters.first().map(|e| (e.0 - t0).saturating_sub(at[i] + pd(i))),
             announced: snap.iter().find_map(|e| match e {
                 Ev::Note { kind: "latency_injected", a, b, .. } if *a == tk as i64 => Some(*b as u64),
                 _ => None,
             }),
-            resolved_after: resolve.as_ref().map(|r| r.0 - t0 - at[i]),
+            resolved_after: resolve.as_ref().map(|r| (r.0 - t0).saturating_sub(at[i] + pd(i))),
             outcome: match &resolve {
                 Some((_, Outcome::Ok { .. })) => "ok".into(),
                 Some((_, Outcome::Inner { code, .. })) => format!("err{code}"),
@@ -425,6 +444,9 @@ pub fn run_case(case: &ChaosCase) -> Report {
     }
     if case.clock_offset_us > 0 {
         r.class("clock_off_the_millisecond_grid");
+    }
+    if case.poll_delays.iter().any(|&d| d > 0) {
+        r.class("first_poll_later_than_call");
     }
     if case.error_rate == 0 && case.latency_rate == 0 {
         r.class("both_rates_zero");
